@@ -15,11 +15,13 @@ PROP_FILES = ["Props/C20.v"]
 CASE_TIMEOUT = 60
 RULE = ("kind 0: generated programs (raise site x surrounding statements from a pool with markup-like text, non-ASCII, tabs, multi-line "
         "strings and calls, backslash continuations, comments ending in a backslash, f-strings) x origin (file, exec'd source-less code "
-        "under ordinary and markup-like file names, module-level code, a vendor module matched by the ignore pattern) x recursion depth "
-        "1..60 (self and mutual) x chained causes x 24 messages x 9 exception types x 4 verbosities x UTF-8 on/off x plain/ANSI x simple/"
-        "full x ignore pattern x working/home directory; kind 1: the highlighter on real Python files of the repository and the standard "
-        "library; kind 2: compact on frame sequences. non-trivial = distinct (site, origin, recursion, verbosity, message class) / file / "
-        "sequence")
+        "under ordinary and markup-like file names, module-level code incl. a failure on line 1..4 of its file, a vendor module, files of "
+        "more than 1000 lines) x recursion depth drawn uniformly from 1..60 (self and mutual) x chained causes x 32 messages (incl. CR, FF, "
+        "VT, FS/GS/RS, NEL, U+2028 and a final line break) x 16 exception types (two with a broken __str__) x 4 verbosities x UTF-8 "
+        "on/off x plain/ANSI x simple/full x 8 ignore patterns (absolute prefix, everything, nothing, relative fragments that re.match "
+        "must NOT honour, the program's own file) x working/home directory; kind 1: the highlighter on real Python files of the "
+        "repository and the standard library and on generated texts (tab-indented, non-ASCII, 1200 lines); kind 2: compact on frame "
+        "sequences. non-trivial = distinct (site, origin, recursion, verbosity, message class) / file / sequence")
 TRUSTED = ["tokenize, inspect and crashtest (Inspector, Frame) are outside clikit: their outputs (token streams, frames, file contents) are "
            "INPUTS of the model, taken from the same run; the hypotheses the theorems put on token streams (wf_tokens) are checked on "
            "every token stream of the run by the harness (validated, not proved); FrameCollection.compact is modelled and tied (kind 2)",
